@@ -66,7 +66,7 @@ let run (st : stream) (b : Buffer.t) : unit =
         let ty = next_z st in
         let sp = next st in
         let spawn_impl = int_of_string (String.sub sp 6 (String.length sp - 6)) in
-        let slots = ref [] and edges = ref [] and tours = ref [] in
+        let slots = ref [] and edges = ref [] and tours = ref [] and dsteps = ref [] in
         let fin = ref false in
         while not !fin do
           match next st with
@@ -75,10 +75,11 @@ let run (st : stream) (b : Buffer.t) : unit =
             let t = next st in let h = next st in
             let lo = next_z st in let up = next_z st in let c = next_z st in let f = next_z st in
             edges := ({ fe_tail = code_of_label t; fe_head = code_of_label h; fe_lower = lo; fe_upper = up; fe_cost = c }, f) :: !edges
+          | "DSTEP" -> let n = parse_nid (next st) in let c = code_of_label (next st) in dsteps := (n, c) :: !dsteps
           | "FTOUR" ->
             let rec rd acc = if eof st then acc else
               let t = peek st in
-              if t = "FTOUR" || t = "ENDMCF" || t = "EDGE" || t = "SLOT" then acc else (ignore (next st); rd (parse_nid t :: acc)) in
+              if t = "FTOUR" || t = "ENDMCF" || t = "EDGE" || t = "SLOT" || t = "DSTEP" then acc else (ignore (next st); rd (parse_nid t :: acc)) in
             tours := List.rev (rd []) :: !tours
           | "ENDMCF" -> fin := true
           | t -> failwith ("unexpected token in MCF block: " ^ t)
@@ -93,6 +94,15 @@ let run (st : stream) (b : Buffer.t) : unit =
         let cert = match potentials net f with
           | Some pi -> check_optimal net f (pi_of pi)
           | None -> false in
+        (* the decoding replayed on Decode.v with the recorded order of the entering flow units *)
+        let steps = List.rev !dsteps in
+        let order n = List.filter_map (fun (m, c) -> if nid_eqb m n then Some c else None) steps in
+        let impl_tours = List.rev !tours in
+        let dec_model = match decode nw ty slots order with
+          | Ok ts -> if List.length ts = List.length impl_tours && List.for_all2 (fun a b -> nids_eqb a b) ts impl_tours
+                     then "equal" else "differs"
+          | _ -> "panic" in
+        pr "DECODE %s model=%s order_ok=%b steps=%d\n" (zs ty) dec_model (order_ok_b nw ty slots order net f) (List.length steps);
         pr "FLOW %s spawn_model=%s spawn_impl=%d feasible=%b decomposition=%b certificate=%b cost=%s ntours=%d lower_total=%s\n"
           (zs ty) (zs (spawning_cost nw ty slots)) spawn_impl feas dec cert (zs (flow_cost net f)) (List.length !tours)
           (zs (total_lower_bound nw ty slots))
